@@ -55,7 +55,7 @@ let rec p_sels n r = if n = 0 then ([], r) else
 let rec p_block lines =
   match lines with
   | [] -> ([], [])
-  | ("ELIF" :: _) :: _ | ["ELSE"] :: _ | ["END"] :: _ | ("V" :: _) :: _ -> ([], lines)
+  | ("ELIF" :: _) :: _ | ("ELSP" :: _) :: _ | ["ELSE"] :: _ | ["END"] :: _ | ("V" :: _) :: _ -> ([], lines)
   | l :: rest ->
       let (s, rest) = p_stmt l rest in
       let (ss, rest) = p_block rest in
@@ -83,6 +83,11 @@ and p_chain lines =
       let (b, rest) = p_block rest in
       let (ch, rest) = p_chain rest in
       (CElseIf (c, block_of b, ch), rest)
+  | ("ELSP" :: r) :: rest ->
+      let (c, _) = p_expr r in
+      let (b, rest) = p_block rest in
+      let (ch, rest) = p_chain rest in
+      (CElseSp (c, block_of b, ch), rest)
   | _ -> raise (Parse "chain")
 
 let fmt_env e = String.concat ";" (List.map (fun (x, v) -> Printf.sprintf "%d=%s" (int_of_nat x) (string_of_bv v)) e)
